@@ -20,6 +20,7 @@ import (
 type schedScenario struct {
 	Name    string `json:"name"`
 	Readers int    `json:"readers"`
+	Writers int    `json:"writers,omitempty"`
 	Begin   bool   `json:"begin"`
 	Bound   int    `json:"bound"`
 	Choices []int  `json:"choices,omitempty"`
@@ -52,6 +53,7 @@ func partSched(r *ev.Run, v *violSet) {
 		{Name: "w3r1-view", Readers: 1, Bound: b},
 		{Name: "w3r1-begin", Readers: 1, Begin: true, Bound: b},
 		{Name: "w3r2-view", Readers: 2, Bound: 2},
+		{Name: "w2-counter", Writers: 2, Bound: b},
 	}
 	results := make([]schedResult, len(scs))
 	errs := make([]string, len(scs))
